@@ -200,6 +200,10 @@ def task(kind, inplace, shape="main", empty_message=False):
     eng = Engine()
     rec = Recorder(eng)
     vals = [eng.sym_str(f"v{i}_", 1, "xy") for i in range(8)]
+    if shape == "main":
+        # one text value of two characters (a failing value may hold '%'), one name-part string holding a blank
+        vals[4] = mk(chars(eng.sym_str("v4_", 1, "xy")) + chars(eng.sym_str("v4b_", 1, "x%")))
+        vals[2] = mk(chars(eng.sym_str("v2_", 1, "xy")) + (" ",) + chars(eng.sym_str("v2b_", 1, "xy")))
     if kind == "enc":
         stub = make_stub(eng, "unicode_to_latex")
         mw = LatexEncodingMiddleware(encoder=stub)
@@ -398,7 +402,7 @@ def task_ctor_seq():
 
 def main():
     chk = Check("C18", __doc__)
-    chk.bounds = {"library": "String, Preamble, Entry, ExplicitComment, ParsingFailedBlock; every text one symbolic character; three entry shapes: main = (str, int, NameParts(first 1 word, last 2 words), str, list of ints, list of str); names-only = a single NameParts field with 5 strings over all four parts; dup-keys = note/title/note/year(int)/title with repeated field keys",
+    chk.bounds = {"library": "String, Preamble, Entry, ExplicitComment, ParsingFailedBlock; every text one symbolic character (in the main shape one text has a second character over x / % and one name-part string is two words joined by a blank); three entry shapes: main = (str, int, NameParts(first 1 word, last 2 words), str, list of ints, list of str); names-only = a single NameParts field with 5 strings over all four parts; dup-keys = note/title/note/year(int)/title with repeated field keys",
                   "converter failure": "RuntimeError with a message, and (three extra tasks) ValueError() without any message", "converter": "a function of its input: raises on values starting with 'y', else returns '<'+input+'>' (values are symbolic over {x,y}, so all 2^6 failure patterns and all equal-value patterns occur)",
                   "constructor sequences": "two default-built encoder and decoder middlewares in a row, keep_math / enclose_urls / keep_braced_groups / keep_math_mode each symbolic over {None, True, False}; the pylatexenc classes are recording stubs, the claim is about what bibtexparser hands to them (which rules, which options, no shared state)",
                   "options": "encoder / decoder middleware x allow_inplace_modification in {True, False}; custom converter vs. option conflicts in the constructors"}
